@@ -31,10 +31,10 @@ type selState struct {
 }
 
 type sudog struct {
-	g    *G
-	val  any
-	ok   bool
-	st   *selState
+	g     *G
+	val   any
+	ok    bool
+	st    *selState
 	case_ int
 }
 
@@ -142,8 +142,8 @@ func (st *chanState) canRecv() bool {
 
 type plainError string
 
-func (e plainError) Error() string   { return string(e) }
-func (e plainError) RuntimeError()   {}
+func (e plainError) Error() string { return string(e) }
+func (e plainError) RuntimeError() {}
 
 func removeSudog(q *[]*sudog, sg *sudog) {
 	for i, x := range *q {
@@ -408,9 +408,9 @@ type SelCase struct {
 	send    bool
 	key     uintptr
 	val     any
-	ch      any                            // boxed channel for passthrough (reflect)
-	tryRecv func() (any, bool, bool)       // foreign channels
-	trySend func() bool                    // foreign channels
+	ch      any                      // boxed channel for passthrough (reflect)
+	tryRecv func() (any, bool, bool) // foreign channels
+	trySend func() bool              // foreign channels
 }
 
 type Sel struct {
@@ -464,8 +464,12 @@ func CaseSendSO[T any](ch chan<- T, v T) SelCase {
 }
 
 // CaseSendTo(ch)(v) mirrors SendTo for select cases.
-func CaseSendTo[T any](ch chan T) func(T) SelCase     { return func(v T) SelCase { return CaseSend(ch, v) } }
-func CaseSendToSO[T any](ch chan<- T) func(T) SelCase { return func(v T) SelCase { return CaseSendSO(ch, v) } }
+func CaseSendTo[T any](ch chan T) func(T) SelCase {
+	return func(v T) SelCase { return CaseSend(ch, v) }
+}
+func CaseSendToSO[T any](ch chan<- T) func(T) SelCase {
+	return func(v T) SelCase { return CaseSendSO(ch, v) }
+}
 
 func selectPassthrough(hasDefault bool, cases []SelCase) Sel {
 	rc := make([]reflect.SelectCase, 0, len(cases)+1)
